@@ -36,7 +36,7 @@ FN_BY_KIND = {
     "list": [["append_copy", 0], ["empty", 0], ["identity", 0], ["wrong", 0]],
     "set": [["empty", 0], ["identity", 0], ["wrong", 0]],
     "dict": [["empty", 0], ["identity", 0], ["wrong", 0]],
-    "spec": [["identity", 0], ["with_first", 0], ["wrong", 0]],
+    "spec": [["identity", 0], ["with_first", 0], ["wrong", 0], ["existing", 0], ["existing", 1]],
     "other": [["identity", 0], ["wrong", 0], ["to_missing", 0]],
 }
 
@@ -60,11 +60,39 @@ def fn_kind(T):
     return "other"
 
 
-def make_fn(world, name, param):
+def _existing_like(cur, v, n):
+    """The n-th object of v's class reachable from `cur` other than v itself (a pure transform may return
+    an object that already exists, e.g. another child of the receiver)."""
+    found, seen = [], set()
+
+    def walk(o):
+        if id(o) in seen or isinstance(o, (int, float, str, bytes, bool, type(None))):
+            return
+        seen.add(id(o))
+        if type(o) is type(v) and o is not v and o is not cur:
+            found.append(o)
+        if isinstance(o, dict):
+            for x in o.values():
+                walk(x)
+        elif isinstance(o, (list, tuple, set)) or (hasattr(o, "_dict") and hasattr(o, "_key")):
+            for x in (sorted(o, key=repr) if isinstance(o, set) or not hasattr(o, "_list") and hasattr(o, "_dict") else o):
+                walk(x)
+        elif hasattr(o, "__spec_class__"):
+            for x in object.__getattribute__(o, "__dict__").values():
+                walk(x)
+
+    if cur is not None:
+        walk(cur)
+    return found[n % len(found)] if found else v
+
+
+def make_fn(world, name, param, cur=None):
     from spec_classes.types import MISSING
 
     def fn(v):
         world.tick("fn", name)
+        if name == "existing":
+            return _existing_like(cur, v, param)
         if name == "inc":
             return v + param
         if name == "double":
@@ -89,9 +117,9 @@ def make_fn(world, name, param):
             # a new object derived from v through its own copy-on-write API
             for a in getattr(getattr(v, "__spec_class__", None), "attrs", {}):
                 m = getattr(v, f"with_{a}", None)
-                cur = getattr(v, a, None)
-                if m and isinstance(cur, int) and not isinstance(cur, bool):
-                    return m(cur + 1)
+                old = getattr(v, a, None)
+                if m and isinstance(old, int) and not isinstance(old, bool):
+                    return m(old + 1)
             return v
         raise AssertionError(name)
 
@@ -126,7 +154,7 @@ def resolve(world, cur, arg, record=None):
         if tag == "$unchanged":
             return UNCHANGED
         if tag == "$fn":
-            return make_fn(world, arg[1], arg[2])
+            return make_fn(world, arg[1], arg[2], cur)
         if tag == "$idx":
             return arg[1]
         coll = _raw(cur, arg[1])
@@ -244,7 +272,8 @@ def gen_scalar_call(src, world, cname, attr, inplace, bad_rate):
     if m in (4, 5):  # transform_<a>
         args = [gen_fn(src, T)]
         if T[0] == "spec" and src.chance(1, 2):
-            args = []
+            if src.chance(1, 2):
+                args = []  # attribute transforms only (else: whole-value transform AND attribute transforms)
             inner = "a" if T[1] == "U" else "v"
             k[inner] = gen_fn(src, ["int"])
         return {"t": "call", "m": f"transform_{attr}", "a": args, "k": k}
@@ -337,7 +366,8 @@ def gen_element_call(src, world, cname, attr, inplace, bad_rate):
         k.update(extra)
         args = [target, gen_fn(src, E)]
         if spec_elem and src.chance(1, 2):
-            args = [target]
+            if src.chance(1, 2):
+                args = [target]
             k["a" if E[1] == "U" else "v"] = gen_fn(src, ["int"])
         return {"t": "call", "m": f"transform_{s}", "a": args, "k": k}
     target, extra = addr()
@@ -354,12 +384,20 @@ def gen_toplevel_call(src, world, cname, inplace, bad_rate):
         return {"t": "call", "m": "reset", "a": [], "k": k}
     n = 1 + src.choice(min(3, len(names)))
     chosen = []
+    invalidators = sorted({i for a in attrs.values() for i in (a.get("invalidated_by") or ()) if i in attrs})
+    if invalidators and src.chance(1, 3):
+        # an attribute that invalidates dependants goes first, so that a later failing attribute exercises the rollback
+        chosen.append(src.pick(invalidators))
+        n = max(n, 2)
     for _ in range(n):
         a = src.pick(names)
         if a not in chosen:
             chosen.append(a)
     if m <= 1:
-        for a in chosen:
+        for j, a in enumerate(chosen):
+            if j == 0 and a in invalidators:
+                k[a] = gen_value(src, attrs[a]["type"], True)
+                continue
             k[a] = gen_arg_value(src, attrs[a]["type"], bad_rate)
         if src.chance(1, 12):
             k["bogus"] = 1
